@@ -49,6 +49,7 @@ func ValidateServerConfig(c *v1.ServerConfig) (Warning, error) {
 	errs = AppendError(errs, ValidatePort(c.VhostHTTPPort, "vhostHTTPPort"))
 	errs = AppendError(errs, ValidatePort(c.VhostHTTPSPort, "vhostHTTPSPort"))
 	errs = AppendError(errs, ValidatePort(c.TCPMuxHTTPConnectPort, "tcpMuxHTTPConnectPort"))
+	errs = AppendError(errs, ValidatePort(c.SSHTunnelGateway.BindPort, "sshTunnelGateway.bindPort"))
 
 	for _, p := range c.HTTPPlugins {
 		if !lo.Every(SupportedHTTPPluginOps, p.Ops) {
